@@ -50,6 +50,7 @@ BROKEN = [
     # the literal's own text ends in `&` exactly where it is split: only the last `&` is the continuation mark
     ("'R&&\n   &D'", "'R&D'"),
     ("\"a&&&\n&b\"", "\"a&&b\""),
+    ("'ab&\n&x ! y'", "'abx ! y'"),
 ]
 
 # separators that keep the statement going: (name, text, glue)
@@ -65,6 +66,9 @@ CONT = [
     ("cont_onlyamp", " &\n &\n  & ", " "),
     ("cont_com_tricky", " & ! it's !! no doc ; & \n  ", " "),
     ("cont_comline_tricky", " &\n ! say \"hi !> not pre\n  ", " "),
+    # an ordinary comment whose text starts with `$` and a blank, or is `$` alone (no directive sentinel: a comment like any other)
+    ("cont_comline_dollar", " &\n !$ c line\n  ", " "),
+    ("cont_comline_dollar_only", " &\n!$\n  ", " "),
 ]
 # separators that end the statement: (name, text, items emitted after the logical line,
 #   items emitted before next statement's logical line closes (predocs))
@@ -96,7 +100,12 @@ END = [
     ("nl_semis_and_comment", "\n  ; ; ! c own\n", [], []),
     ("nl_semi_cont_semi", "\n ; &\n ;\n", [], []),
     ("nl_com_linesep", " ! c\u2028 zz = 9 \x0c yy = 8\n", [], []),
+    ("nl_comline_dollar", "\n  !$ c own = 3\n", [], []),
+    ("nl_comline_dollar_only", "\n!$\n", [], []),
 ]
+# a continuation line with a trailing comment whose text, as a whole line, also occurs as the second line of a continued literal
+# (BROKEN): what a line means depends on where it stands, never on its text alone
+TAILCOM = [("b &\n&x ! y'", "b x")]
 FINAL = [("", []), (" ! c fin", []), (" !! d fin", ["!! d fin"]), ("\n", []), ("\n\n! c\n", []),
          # a preceding-doc block that nothing follows documents nothing (and must not reach whatever is read next in this process)
          ("\n!> p dangling\n", []), ("\n  !| q dangling\n  ! r more\n", [])]
@@ -313,7 +322,7 @@ def run_case(text, expected):
 
 
 def token_alphabet():
-    toks = [(c, c) for c in CODE] + [(l, l) for l in LITS] + list(BROKEN)
+    toks = [(c, c) for c in CODE] + [(l, l) for l in LITS] + list(BROKEN) + list(TAILCOM)
     return toks
 
 
@@ -325,7 +334,14 @@ def gen_exhaustive(maxlen, tok_subset, cont_subset, end_subset, finals):
                     yield toks, seps, fin
 
 
-def valid_case(toks, seps):
+def valid_case(toks, seps, fin=None):
+    for i, t in enumerate(toks):
+        if t in TAILCOM:
+            # the token ends in a comment: the line has to end there
+            if i < len(seps) and not (len(seps[i]) == 4 and seps[i][1].startswith("\n")):
+                return False
+            if i == len(toks) - 1 and fin is not None and fin[0] not in ("", "\n", "\n\n! c\n"):
+                return False
     # exact join between two tokens may create a different token sequence (e.g. 's''s' -> doubled
     # quote); only allow exact joins where at least one side is code without quotes at the joint
     for i, s in enumerate(seps):
@@ -387,12 +403,19 @@ def worker(chunk):
 def gen_random(rng, n, toks):
     for _ in range(n):
         k = rng.randint(4, 14)
+        long_line = rng.random() < 0.1
+        if long_line:
+            k = rng.randint(16, 30)  # many statements on one physical line, far beyond column 132
         ts = [rng.choice(toks) for _ in range(k)]
         ss = []
+        semis = [e for e in END if e[0] in ("semi", "semi_tight")]
         for i in range(k - 1):
+            if long_line:
+                ss.append(rng.choice(semis) if rng.random() < 0.8 else CONT[0])
+                continue
             ss.append(rng.choice(CONT) if rng.random() < 0.55 else rng.choice(END))
         fin = rng.choice(FINAL)
-        if valid_case(ts, ss):
+        if valid_case(ts, ss, fin):
             yield tuple(ts), tuple(ss), fin
 
 
@@ -451,7 +474,7 @@ def main():
         ex.append((c for c in gen_exhaustive(4, small_toks[:8], small_cont[:4], small_end[:4], FINAL[:2]) if len(c[0]) == 4))
     nrandom = 60000 if thorough else 6000
     allcases = itertools.chain(
-        (c for c in itertools.chain(*ex) if valid_case(c[0], c[1])),
+        (c for c in itertools.chain(*ex) if valid_case(c[0], c[1], c[2])),
         gen_random(rng, nrandom, toks),
     )
     work = list(chunks(allcases, 4000))
